@@ -154,9 +154,22 @@ Proof.
     - intros l Hl. pose proof (Hmemb_o l Hl) as Hq. cbn [memb] in Hq. cbn beta. now rewrite Hq. }
   exists (einsum Op ins [k; rank] ops).
   split; [|split; [apply wf_tabulate | split]].
-  - unfold mttkrp_e. rewrite Efs. rewrite <- Efs. fold N. fold rank. fold w'.
+  - unfold mttkrp_e. rewrite Efs. rewrite <- Efs. fold N. fold rank. fold w'. fold fs'.
     apply Nat.ltb_lt in Hk as Hk'. unfold ndim. fold N. rewrite Hk'.
-    rewrite (not_in_single N k Hk). reflexivity.
+    rewrite (not_in_single N k Hk). fold others.
+    assert (HLw : prod (shape w') = R) by (rewrite Hsw'; cbn [prod fold_right]; lia).
+    assert (HRm : (if prod (shape w') =? 1 then match fs' with f :: _ => ncols f | [] => 1 end else prod (shape w')) = R).
+    { rewrite HLw. destruct (Nat.eqb_spec R 1) as [E1|E1]; [|reflexivity].
+      destruct fs' as [|f fs'']; [now rewrite E1|]. inversion Hm' as [|? ? [_ Hsf] _]; subst. unfold ncols. now rewrite Hsf. }
+    rewrite HRm, HLw, Nat.eqb_refl.
+    assert (Hg1 : (length (shape w') =? 1) = true) by (rewrite Hsw'; reflexivity).
+    assert (Hg2 : forallb (fun f => (length (shape f) =? 2) && (ncols f =? R)) fs' = true).
+    { apply forallb_forall. intros f Hf. unfold mats in Hm'. rewrite Forall_forall in Hm'. destruct (Hm' f Hf) as [_ Hsf].
+      unfold ncols. rewrite Hsf. cbn [length nth]. rewrite !Nat.eqb_refl. reflexivity. }
+    assert (Hg3 : nat_list_eq (map nrows fs') (map (fun l => nth l (shape T) 0) others) = true).
+    { rewrite Hrows'. replace (map (fun l => nth l (shape T) 0) others) with (remove_nth k (shape T)); [apply nat_list_eq_refl|].
+      symmetry. rewrite <- Hsizes. apply map_ext_in. intros l Hl. symmetry. apply Hsz. apply Hin_o in Hl. lia. }
+    rewrite Hg1, Hg2, Hg3. reflexivity.
   - unfold einsum. cbn [shape map]. rewrite Hsz by exact Hk. now rewrite Hszr.
   - intros i r Hi Hr. unfold einsum.
     assert (Hio : inb (map (label_size ins ops) [k; rank]) [i; r]).
@@ -191,7 +204,9 @@ Corollary mttkrp_backends_agree (T : tensor F) (w : option (tensor F)) (fs : lis
   mttkrp Op T w fs k = mttkrp_e Op T w fs k.
 Proof.
   intros WT Hk Hpos HR Hrows Hm Hnd Hw.
-  destruct (mttkrp_spec Op Rth T w fs k R WT Hk Hpos HR Hrows Hm Hnd) as [R1 [E1 [W1 [S1 G1]]]].
+  assert (Hwok : w_ok w R).
+  { intros w0 E. destruct (Hw w0 E) as [_ Hs]. rewrite Hs. cbn [prod fold_right]. lia. }
+  destruct (mttkrp_spec Op Rth T w fs k R WT Hk Hpos HR Hrows Hm Hnd Hwok) as [R1 [E1 [W1 [S1 G1]]]].
   destruct (mttkrp_e_spec T w fs k R WT Hk HR Hrows Hm Hw) as [R2 [E2 [W2 [S2 G2]]]].
   rewrite E1, E2. f_equal. apply tensor_ext with (d := d); auto; [congruence|].
   intros idx Hi. rewrite S1 in Hi. destruct idx as [|i [|r [|? ?]]]; cbn [inb] in Hi; try tauto.
